@@ -64,6 +64,13 @@ def shaped(cat, shape, pos, bad, rng, ncol=3, nrow=3, field=None):
         ok = list(v)
         v[place(ncol)] = bad
         return v, ok
+    if shape == "ragged":
+        # a nested list whose first row is shorter than the later ones; the bad value sits beyond the first row's width
+        m = [[good()]] + [[good() for _ in range(ncol)] for _ in range(nrow - 1)]
+        ok = [list(r) for r in m]
+        r, c_ = {"first": (1, 1), "middle": (1, ncol - 1), "last": (nrow - 1, ncol - 1)}[pos]
+        m[r][c_] = bad
+        return m, ok
     m = [[good() for _ in range(ncol)] for _ in range(nrow)]
     ok = [list(r) for r in m]
     m[place(nrow)][place(ncol)] = bad
@@ -114,7 +121,10 @@ def attempt(row, rng, tmp):
         val = [1.0] * n
         return {"outcome": _classify(lambda: rtf.RTFPage(margin=val)), "control": _classify(lambda: rtf.RTFPage(margin=[1.0] * 6)) == "accepted", "value": repr(val)}
     if cat == "cross_new_page":
-        return {"outcome": _classify(lambda: rtf.RTFBody(new_page=True)), "control": _classify(lambda: rtf.RTFBody(new_page=True, page_by=["a"])) == "accepted", "value": "new_page=True"}
+        # new_page needs page_by: no other grouping option stands in for it
+        other = rng.choice([{}, {"subline_by": ["a"]}, {"group_by": ["a"]}, {"subline_by": ["a"], "group_by": ["b"]}])
+        return {"outcome": _classify(lambda: rtf.RTFBody(new_page=True, **other)), "control": _classify(lambda: rtf.RTFBody(new_page=True, page_by=["a"])) == "accepted" and _classify(lambda: rtf.RTFBody(**other)) == "accepted",
+                "value": "new_page=True %r" % (other,)}
     if cat == "missing_file":
         good = os.path.join(tmp, "ok.png")
         with open(good, "wb") as f:
